@@ -359,6 +359,14 @@ func (cs *CodecSet) ieDesc(nt *types.Named) *IEDesc {
 			d.GetIeiOK = returnsField(body, recv, "Iei")
 		case "SetLen":
 			d.SetLenOK, d.SetLenMk, d.SetLenBad = summarizeSetLen(fd.Decl, tinfo, recv)
+			if d.SetLenBad != "" {
+				// not the generator's two statements: decide the same facts by evaluation
+				if st, mk, why := cs.semSetLen(fd.Obj, d); why == "" {
+					d.SetLenOK, d.SetLenMk, d.SetLenBad = st, mk, ""
+				} else {
+					d.SetLenBad += " (by evaluation: " + why + ")"
+				}
+			}
 		}
 	}
 	return d
@@ -483,6 +491,54 @@ func summarizeSetLen(fd *ast.FuncDecl, info *types.Info, recv string) (stores, m
 		default:
 			return stores, makes, "unexpected statement in SetLen"
 		}
+	}
+	return stores, makes, ""
+}
+
+// semSetLen decides on the SSA form (E2) that SetLen(n) leaves Len == n and, for elements with a
+// heap buffer, Buffer a slice freshly made with exactly n elements; it writes nothing but its receiver.
+func (cs *CodecSet) semSetLen(f *types.Func, d *IEDesc) (stores, makes bool, why string) {
+	fn := cs.w.SSAFunc(f)
+	if fn == nil || len(fn.Params) != 2 {
+		return false, false, "unexpected signature"
+	}
+	wd, _, ok := typeWidth(fn.Params[1].Type())
+	if !ok {
+		return false, false, "parameter is not an integer"
+	}
+	it := NewInterp(cs.w)
+	it.Fuel = 20000
+	st := it.NewState()
+	ro, recv := it.SymbolicObj("recv")
+	n := it.SrcBV("n", wd)
+	it.Call(fn, []Value{recv, n}, st, 0)
+	if len(it.Unsup) > 0 {
+		return false, false, strings.Join(it.Unsup, "; ")
+	}
+	for wk := range it.Writes {
+		if !strings.HasPrefix(wk, "recv") {
+			return false, false, "SetLen writes " + wk
+		}
+	}
+	lv, isBV := st.mem[ro][".Len"].(BV)
+	if !isBV {
+		return false, false, "SetLen does not store Len"
+	}
+	if same, _ := sameBV(it, lv, n); !same {
+		return false, false, "SetLen does not store its parameter into Len"
+	}
+	stores = true
+	if bv, has := st.mem[ro][".Buffer"]; has {
+		sl, isSl := bv.(SliceV)
+		if !isSl || sl.Obj == nil || !strings.HasPrefix(sl.Obj.Name, "make") || sl.Lo != 0 || sl.Obj.MadeLen == nil {
+			return stores, false, "Buffer is not assigned a freshly made slice"
+		}
+		ml := *sl.Obj.MadeLen
+		want := bvZext(it, n, ml.W)
+		if same, _ := sameBV(it, ml, want); !same {
+			return stores, false, "SetLen allocates a size other than Len"
+		}
+		makes = true
 	}
 	return stores, makes, ""
 }
